@@ -438,18 +438,26 @@ impl std::ops::Neg for Quantity {
 
 impl PartialEq for Quantity {
     fn eq(&self, other: &Self) -> bool {
-        if let Ok(other_converted) = other.convert_to(self.unit()) {
-            self.value == other_converted.value
-        } else {
-            false
+        // Convert both operands to the smaller unit to make sure that a == b is
+        // the same as b == a (see also: addition and subtraction)
+        let common_unit = self.unit.smaller_unit(&other.unit);
+        match (self.convert_to(common_unit), other.convert_to(common_unit)) {
+            (Ok(self_converted), Ok(other_converted)) => {
+                self_converted.value == other_converted.value
+            }
+            _ => false,
         }
     }
 }
 
 impl PartialOrd for Quantity {
     fn partial_cmp(&self, other: &Self) -> Option<std::cmp::Ordering> {
-        let other_converted = other.convert_to(self.unit()).ok()?;
-        self.value.partial_cmp(&other_converted.value)
+        // Convert both operands to the smaller unit to make sure that a < b is
+        // the same as b > a
+        let common_unit = self.unit.smaller_unit(&other.unit);
+        let self_converted = self.convert_to(common_unit).ok()?;
+        let other_converted = other.convert_to(common_unit).ok()?;
+        self_converted.value.partial_cmp(&other_converted.value)
     }
 }
 
@@ -477,11 +485,17 @@ impl Quantity {
             return QuantityOrdering::NanOperand;
         }
 
-        let Ok(other_converted) = other.convert_to(self.unit()) else {
+        // Convert both operands to the smaller unit to make sure that a < b is
+        // the same as b > a
+        let common_unit = self.unit.smaller_unit(&other.unit);
+        let (Ok(self_converted), Ok(other_converted)) = (
+            self.convert_to(common_unit),
+            other.convert_to(common_unit),
+        ) else {
             return QuantityOrdering::IncompatibleUnits;
         };
 
-        let cmp = self
+        let cmp = self_converted
             .value
             .partial_cmp(&other_converted.value)
             .expect("unexpectedly got a None partial_cmp from non-NaN arguments");
